@@ -1201,8 +1201,17 @@ impl<T: Serialize + for<'de> Deserialize<'de> + Clone + PartialEq + Send + Sync 
             }
         }
 
-        // Sort by timestamp (oldest first for replay)
-        wal_files.sort_by(|a, b| a.file_name().cmp(&b.file_name()));
+        // Replay order: rotated files oldest first (their names carry the rotation time),
+        // then the current file, which holds the newest entries although its name
+        // ("state.wal") sorts before the rotated ones ("wal.<timestamp>.wal")
+        let current_name = std::ffi::OsString::from(format!("state.{WAL_EXTENSION}"));
+        wal_files.sort_by(|a, b| {
+            let a_current = a.file_name() == Some(current_name.as_os_str());
+            let b_current = b.file_name() == Some(current_name.as_os_str());
+            a_current
+                .cmp(&b_current)
+                .then_with(|| a.file_name().cmp(&b.file_name()))
+        });
 
         Ok(wal_files)
     }
